@@ -155,7 +155,7 @@ func trustedResourceURLFormat(format string, args map[string]string) (TrustedRes
 		// segments or URL components.
 		return safehtmlutil.QueryEscapeURL(argVal)
 	})
-	if err == nil && safehtmlutil.URLDoubleDotSegmentCount(ret) > safehtmlutil.URLDoubleDotSegmentCount(trustedResourceURLFormatMarkerPattern.ReplaceAllString(format, "")) {
+	if err == nil && safehtmlutil.URLDoubleDotSegmentCount(ret) > safehtmlutil.URLDoubleDotSegmentCount(trustedResourceURLFormatMarkerPattern.ReplaceAllString(format, "\x00")) {
 		// Arguments that are individually free of ".." can still form one together with
 		// each other or with adjacent '.' runes in the format string.
 		err = fmt.Errorf(`arguments must not introduce ".." into the format string %q`, format)
